@@ -358,7 +358,12 @@ def job_repr(job) -> report.JobResult:
         u = URL(f"https://{user}:{render(pw)}@{host}/p?x=1")
         if not same(e, u.password, pw.items):
             raise Fail("password-not-parsed-as-given")
-        text = its(repr(u))
+        try:
+            text = its(repr(u))
+        except ValueError:
+            if job.get("badport"):
+                return "ok"  # a URL whose port is not a port: refusing to print it discloses nothing
+            raise
         k = len(pw.items)
         for i in range(len(text) - k + 1):
             win = text[i:i + k]
@@ -382,6 +387,8 @@ def job_repr(job) -> report.JobResult:
     def concrete(w):
         try:
             r = repr(URL(f"https://{w['user']}:{w['password']}@{w['host']}/p?x=1"))
+        except ValueError as ex:
+            return None if job.get("badport") else f"exception ValueError: {ex}"
         except Exception as ex:  # noqa: BLE001
             return f"exception {type(ex).__name__}: {ex}"
         if r != f"URL('https://{w['user']}:********@{w['host']}/p?x=1')":
@@ -425,6 +432,10 @@ def job_query(job) -> report.JobResult:
         e = cur()
         u = URL("https://h.example/p?" + base + "#frag") if base else URL("https://h.example/p#frag")
         v = render(val)
+        if job.get("earlier"):
+            # URL objects are values: what an earlier helper call on the SAME object returned must not show in this one
+            u.include_query_params(zz="9")
+            u.remove_query_params("a")
         if op == "include":
             r = u.include_query_params(a=v)
         elif op == "replace":
@@ -451,6 +462,9 @@ def job_query(job) -> report.JobResult:
     def concrete(w):
         from urllib.parse import parse_qsl
         u = URL("https://h.example/p?" + w["base_query"] + "#frag") if w["base_query"] else URL("https://h.example/p#frag")
+        if job.get("earlier"):
+            u.include_query_params(zz="9")
+            u.remove_query_params("a")
         try:
             r = {"include": lambda: u.include_query_params(a=w["value"]), "replace": lambda: u.replace_query_params(a=w["value"]),
                  "remove": lambda: u.remove_query_params("a")}[w["op"]]()
@@ -485,10 +499,13 @@ def jobs(tier: str):
         for hostpart in ("example.org", "[::1]:8080", "h:81"):
             for k in range(1, n + 2):
                 out.append(dict(name=f"repr/{user}@{hostpart}/pw{k}", kind="repr", user=user, hostpart=hostpart, n=k, weight=10 ** k))
+    for hostpart in ("h:99999", "h:8o8o", "[::1]:https"):  # an authority whose port is out of range / not a number
+        out.append(dict(name=f"repr/bob@{hostpart}/pw2/invalid-port", kind="repr", user="bob", hostpart=hostpart, n=2, badport=True, weight=100))
     for op in ("include", "replace", "remove"):
         for baseq in ("", "a=1", "b=2&a=1&a=3&c=", "x=%26&a=+", "a=0&a=1&a=2&b=3", "t=x&a=1&a=&p=1&a=z&a=y&s=up"):
             for k in range(0, n + 1):
                 out.append(dict(name=f"query/{op}/{baseq or 'none'}/v{k}", kind="query", op=op, baseq=baseq, n=k))
+        out.append(dict(name=f"query/{op}/b=2&a=1&a=3&c=/v1/after-earlier-helper-calls", kind="query", op=op, baseq="b=2&a=1&a=3&c=", n=1, earlier=True))
     out.append(dict(name="twin/replace", kind="replace", base=0, fields=["path"], n=1, twin=True))
     return out
 
